@@ -163,3 +163,12 @@ class ForwardModel(E2Contract):
     def canary(self, W, cfg, inp, out):
         flat_ref = [p for row in inp["ref"] for p in row]
         return [eq("canary", out["pred"], [2 * p + 1 for p in flat_ref], "(false)")]
+
+
+from .C06_all import ZeroProbabilityBranch as _ZeroBranch
+
+
+class CircuitZeroBranchUnderC08(_ZeroBranch):
+    """the last step of every QMPT circuit (a POVM measured on the ensemble a measurement process leaves) when an outcome of the measurement
+    process has probability zero - outside the regular regime the forward-model contract is stated in; C06's contract, re-checked under C08"""
+    prop = "C08"
